@@ -1,5 +1,7 @@
 """C11 - peers are registered under their transport source address unless spoofing is on."""
+from e2e_common import e2e_part
 PROP = {
+    "parts": [e2e_part("chkE11", 40, 800)],
     "glue": "G11", "chk": "chk11", "explain": "explain11",
     "gotags": ["shim_udp", "shim_timecache"],
     "n": {"quick": 300, "thorough": 6000},
